@@ -1,7 +1,7 @@
 """C04 - Substitution is function composition and dependent variables are recovered."""
 from vx import core, v1types
 from vx.props import common
-from vx.units import evaluate as ev
+from vx.units import evaluate as ev, substitute as su, fn_stubs as fs
 
 
 def build(asm, tier):
@@ -20,23 +20,45 @@ def build(asm, tier):
 }
 ''')
     asm.file('spec/dep_spec.rs')
+    asm.raw(su.ZERO_SPEC)
+    asm.file('spec/fn_algebra_rem.rs')
+    asm.file('spec/fn_algebra.rs')
+    asm.file('spec/substitute_spec.rs')
+    asm.raw(su.SUBST_SPEC)
     asm.raw('} // mod lib\npub mod units {\n' + common.UNITS_USES + 'broadcast use super::lib::lemma_dep_ok_insert, super::lib::lemma_in_keys_drop_last, super::lib::lemma_in_keys_push, super::lib::lemma_in_keys_append_empty;\n')
     for u in (ev.linear_evaluate(), ev.quadratic_evaluate(), ev.polynomial_evaluate(), ev.function_evaluate()):
         asm.unit(u)
     asm.unit(ev.eval_dependencies())
+    asm.raw(fs.ADD + fs.MUL + su.FN_SUBST_STUBS, 'assumed callee contracts of Function::substitute')
+    for n in ('Function + Function', 'Function * Function', 'Function * Linear', 'term iterator of &Function (fn_terms + axioms ax_fn_terms / ax_fn_terms_fin)', 'Function::zero', 'From<f64> for Function', 'Linear::single_term', 'SortedIds::iter'):
+        asm.stubs.append(dict(unit=n, proved_in='C02 (operators, zero, From) / C13 (single_term) / assumed (term iterator)'))
+    asm.unit(su.function_substitute())
+    asm.raw(su.SUBST_STUBS, 'HashMap::iter_mut loop over the dependency functions and HashMap::extend as helpers')
+    asm.stubs.append(dict(unit='loop `for (_, f) in dependency.iter_mut() { *f = f.substitute(..)? }` (helper substitute_all_values) and HashMap::extend', proved_in='assumed helper contracts (no HashMap::iter_mut specification in vstd)'))
+    asm.unit(su.instance_substitute())
     asm.raw('} // mod units\n')
     asm.guard(common.guard_fn('c04', '', uses='use super::lib::*;'), 'vacuity: prelude')
     asm.guard('''pub mod guard_c04b { use vstd::prelude::*; use super::lib::*;
 proof fn vacuity_pre(d: Map<u64, v1::Function>, s: Map<u64, F64>) requires disj(d, s), d.contains_key(3), s.contains_key(4) { assert(false); }
 }
 ''', 'vacuity: precondition of eval_dependencies')
+    asm.guard('''pub mod guard_c04c { use vstd::prelude::*; use super::lib::*;
+proof fn vacuity_subst(f: v1::Function, rep: Map<u64, v1::Function>, fss: Seq<Seq<v1::Function>>, m: Map<u64, F64>, m2: Map<u64, F64>)
+    requires fn_fin(f), rep_ok(rep), rep.len() != 0, fn_terms(f).len() > 0, fn_terms(f)[0].0@.len() > 0,
+        all_factors_ok(fn_terms(f), fss, rep, fn_terms(f).len() as int), acc_steps_ok(fn_terms(f), fss, fn_terms(f).len() as int),
+        forall|i: int| 0 <= i < fn_terms(f).len() ==> composed_state(m2, m, rep, (#[trigger] fn_terms(f)[i]).0@),
+{ broadcast use ax_fn_terms, ax_fn_terms_fin, ax_zero_f64; assert(false); }
+}
+''', 'vacuity: premises of lemma_substitute_value and the term-list axioms')
     asm.raw(common.FOOTER)
     return dict(
         min_items=10,
         trusted_base=common.TRUSTED_COMMON + common.T4_COLLECTIONS + [
             'T4: HashMap::iter().collect() yields each entry exactly once in SOME order (helper hashmap_iter_collect): the proof holds for every iteration order',
             'T4: itertools::multizip (helper zip3)',
+            'T5 ASSUMED for Function::substitute: operator contracts Function+Function, Function*Function, Function*Linear (pure, value up to an explicit remainder), the term iterator (axioms ax_fn_terms), Function::zero, From<f64>, Linear::single_term',
+            'T5 ASSUMED for Instance::substitute: the HashMap::iter_mut loop over the dependency functions and HashMap::extend are helpers with the obvious contracts (the loop body is one call of Function::substitute)',
         ],
         assumptions=common.A1 + ['precondition taken from the property: dependent-variable ids are not keys of the state passed in (Instance::evaluate passes the user state extended by substituted values)'],
-        not_covered=['Function::substitute and Instance::substitute (BTreeMap-merge based operator code: Entry route not finished; see DESIGN)', 'exactness of the returned used-id set of eval_dependencies'],
+        not_covered=['the operator leaves used by Function::substitute (assumed contracts with explicit remainders, see C02)', 'exactness of the returned used-id set of eval_dependencies'],
     )
